@@ -11,7 +11,7 @@
 //!
 //!   record_dispatcher --seed S --runs N [--from K] --out T.ndjson --programs P.jsonl
 //!   record_dispatcher --replay prog.json --repeat R --out .. --programs ..
-//!   record_dispatcher --scenario pool1 --out .. --programs ..
+//!   record_dispatcher --scenario pool1|poolrace [--repeat R] --out .. --programs ..
 use std::{
     cell::{Cell, RefCell},
     fs::File,
@@ -37,7 +37,7 @@ use compio_runtime::Runtime;
 use futures_channel::oneshot;
 use hcore::out::{Report, panic_msg};
 use hdisp::{
-    program::{Op, Program, Step, TaskSpec, generate, scenario_pool1},
+    program::{Op, Program, Step, TaskSpec, generate, scenario_pool1, scenario_poolrace},
     recorder::{Ev, Recorder},
 };
 use serde_json::{Value, json};
@@ -660,6 +660,11 @@ fn main() {
     } else if let Some(name) = get("--scenario") {
         match name.as_str() {
             "pool1" => plan.push((from, scenario_pool1(false))),
+            "poolrace" => {
+                for k in 0..repeat.max(1) {
+                    plan.push((from + k, scenario_poolrace()));
+                }
+            }
             other => panic!("unknown scenario {other}"),
         }
     } else {
